@@ -71,3 +71,8 @@ package cert
 // tcok / aggok: what an accepted timeout certificate / aggregate certificate guarantees.
 //@ pred tcok(c *Authority, tc hotstuff.TimeoutCert) = tc.view == 0 || (tc.signature != nil && hotstuff.setlen(hotstuff.parts(tc.signature)) >= quorum(c) && (forall id hotstuff.ID :: hotstuff.setmem(hotstuff.parts(tc.signature), id) ==> crypto.sigvalid(c.Base, tc.signature, id, hotstuff.viewcontent(tc.view))))
 //@ pred aggok(c *Authority, agg hotstuff.AggregateQC) = agg.sig != nil && hotstuff.setlen(hotstuff.parts(agg.sig)) >= quorum(c) && (forall id hotstuff.ID :: hotstuff.setmem(hotstuff.parts(agg.sig), id) ==> has(agg.qcs, id) && crypto.sigvalid(c.Base, agg.sig, id, hotstuff.tmcontent(id, agg.view, true, agg.qcs[id])))
+
+//@ func (*Authority).CreatePartialCert property C03
+//@   requires c.Base != nil && block != nil
+//@   ensures [cert] err == nil ==> cert.signature != nil && cert.blockHash == block.hash
+//@   modifies alloc
